@@ -124,3 +124,154 @@ def order_obj(name, contigs):
     if name == "BarcodesAndCoordinate":
         return BarcodesAndCoordinate(contigs=list(contigs) if contigs else None)
     return Unsorted() if name == "Unsorted" else Unknown()
+
+
+# ---------------------------------------------------------------------------------------------------------------------
+# Routes: every way the library offers to hand an (order name, contig list) pair to a sort order object or to a header.
+# All of them must give the order that Coordinate(contigs=...) / BarcodesAndCoordinate(contigs=...) gives.  (additive)
+
+def fai_path(tmp, contigs):
+    """A FASTA index (.fai: name, length, offset, line bases, line width) listing `contigs`, written under `tmp`."""
+    import hashlib
+    import os
+    p = os.path.join(tmp, "ix_%s.fai" % hashlib.sha1("\x00".join(contigs).encode("utf-8")).hexdigest()[:12])
+    if not os.path.exists(p):
+        with open(p, "w") as h:
+            off = 6
+            for k, c in enumerate(contigs):
+                n = 1000 + 17 * k
+                h.write("%s\t%d\t%d\t60\t61\n" % (c, n, off))
+                off += n + n // 60 + 7
+    return p
+
+
+def _order_cls(name):
+    from maflib.sort_order import SortOrder
+    return SortOrder.find(name)
+
+
+def route_header_lines(name, contigs, typed=False, contigs_first=False, annotation="my-spec"):
+    """Pragma lines declaring (name, contigs), the two pragmas in either order."""
+    h = ["#version gdc-1.0.0"] + ([] if typed else ["#annotation.spec " + annotation])
+    c = ["#contigs " + ",".join(contigs)] if contigs else []
+    o = ["#sort.order " + name] if name else []
+    return h + (c + o if contigs_first else o + c)
+
+
+# routes that end in a header (usable by a writer, and by header.sort_order())
+HEADER_ROUTES = [
+    "lines-order-first", "lines-contigs-first",                      # MafHeader.from_lines, pragmas in either order
+    "defaults-obj-contigs", "defaults-name-contigs",                 # from_defaults(sort_order=Cls() | "Name", contigs=[...])
+    "defaults-obj-fasta", "defaults-name-fasta",                     # from_defaults(sort_order=..., fasta_index=path)
+    "defaults-bound", "defaults-bound-fasta",                        # from_defaults(sort_order=Cls(contigs=...) | Cls(fasta_index=...))
+    "from_reader-obj-contigs", "from_reader-name-fasta",             # from_reader(reader of a bare file, sort_order=..., contigs= | fasta_index=)
+    "from_reader-bound", "from_reader-keep",                         # from_reader(sort_order=Cls(contigs=...)) | from_reader(reader of a file that declares both)
+    "reader-header", "reader-path-header", "reader-gz-header",       # MafReader(lines) / reader_from(path) / reader_from(path.gz) .header()
+    # from_reader on a reader whose file already declares one half of the pair, the other half given as an argument
+    "from_reader-file-contigs+order", "from_reader-file-order+contigs", "from_reader-file-both+contigs",
+]
+# routes that end in a sort order object only
+DIRECT_ROUTES = ["ctor-contigs", "ctor-positional", "ctor-fasta", "ctor-fasta-positional", "find-contigs",
+                 "record-name-contigs", "record-obj-fasta", "record-bound"]
+ORDER_ROUTES = DIRECT_ROUTES + HEADER_ROUTES
+NEEDS_CONTIGS = {"ctor-fasta", "ctor-fasta-positional", "record-obj-fasta", "defaults-obj-fasta", "defaults-name-fasta",
+                 "defaults-bound-fasta", "from_reader-name-fasta", "from_reader-file-contigs+order",
+                 "from_reader-file-order+contigs", "from_reader-file-both+contigs"}
+
+
+# PENDING_DEFECTS: routes on which the unchanged library gives header.sort_order() a contig list other than the one the
+# header itself declares (reported, not yet fixed): MafHeader.from_reader does not rebind the sort order when one half of
+# the (order, contigs) pair comes from the reader's file and the other half from its arguments.  Skipped where the
+# header's sort_order() is used for keys; a writer sorts with header.contigs(), so writer checks keep these routes.
+PENDING_DEFECTS = {"from_reader-file-contigs+order", "from_reader-file-order+contigs", "from_reader-file-both+contigs"}
+
+
+def routes_for(contigs, routes=None, skip_pending=True):
+    """The routes applicable to a contig list (a FASTA index route needs a non-empty list)."""
+    return [r for r in (routes or ORDER_ROUTES) if (contigs or r not in NEEDS_CONTIGS) and not (skip_pending and r in PENDING_DEFECTS)]
+
+
+def _bare_reader(lines, how, tmp):
+    """A reader over header `lines` plus a column line, opened from lines / a path / a gzip path."""
+    import gzip
+    import hashlib
+    import os
+    from maflib.reader import MafReader
+    body = lines + ["Hugo_Symbol\tChromosome\tStart_Position\tEnd_Position\tTumor_Sample_Barcode\tMatched_Norm_Sample_Barcode"]
+    if how == "lines":
+        return MafReader(lines=list(body), validation_stringency=VS.Silent)
+    p = os.path.join(tmp, "hdr_%s.maf%s" % (hashlib.sha1("\n".join(body).encode("utf-8")).hexdigest()[:12], ".gz" if how == "gz" else ""))
+    with (gzip.open(p, "wt") if how == "gz" else open(p, "w")) as h:
+        h.write("\n".join(body) + "\n")
+    return MafReader.reader_from(p, validation_stringency=VS.Silent)
+
+
+def header_via(route, name, contigs, tmp, typed=False):
+    """The header the library builds when (name, contigs) is supplied through `route`."""
+    from maflib.header import MafHeader
+    contigs = list(contigs or [])
+    cls = _order_cls(name)
+    ann = None if typed else "my-spec"
+    base = {"version": "gdc-1.0.0", "annotation": ann}
+    bare = route_header_lines(None, [], typed)
+    if route in ("lines-order-first", "lines-contigs-first"):
+        return MafHeader.from_lines(route_header_lines(name, contigs, typed, route == "lines-contigs-first"), validation_stringency=VS.Silent)
+    if route in ("defaults-obj-contigs", "defaults-name-contigs"):
+        return MafHeader.from_defaults(sort_order=cls() if "-obj-" in route else name, contigs=contigs or None, **base)
+    if route in ("defaults-obj-fasta", "defaults-name-fasta"):
+        return MafHeader.from_defaults(sort_order=cls() if "-obj-" in route else name, fasta_index=fai_path(tmp, contigs), **base)
+    if route == "defaults-bound":
+        return MafHeader.from_defaults(sort_order=cls(contigs=contigs or None), **base)
+    if route == "defaults-bound-fasta":
+        return MafHeader.from_defaults(sort_order=cls(fasta_index=fai_path(tmp, contigs)), **base)
+    if route.startswith("from_reader") or route.startswith("reader"):
+        how = "gz" if "-gz-" in route else ("path" if "-path-" in route else "lines")
+        if route in ("reader-header", "reader-path-header", "reader-gz-header"):
+            rd = _bare_reader(route_header_lines(name, contigs, typed, len(contigs) % 2 == 1), how, tmp)
+            try:
+                return rd.header()
+            finally:
+                rd.close()
+        if route == "from_reader-keep":
+            return MafHeader.from_reader(_bare_reader(route_header_lines(name, contigs, typed), how, tmp))
+        if route == "from_reader-obj-contigs":
+            return MafHeader.from_reader(_bare_reader(bare, how, tmp), sort_order=cls(), contigs=contigs or None)
+        if route == "from_reader-name-fasta":
+            return MafHeader.from_reader(_bare_reader(bare, how, tmp), sort_order=name, fasta_index=fai_path(tmp, contigs))
+        if route == "from_reader-bound":
+            return MafHeader.from_reader(_bare_reader(bare, how, tmp), sort_order=cls(contigs=contigs or None))
+        if route == "from_reader-file-contigs+order":
+            return MafHeader.from_reader(_bare_reader(route_header_lines(None, contigs, typed), how, tmp), sort_order=cls())
+        if route == "from_reader-file-order+contigs":
+            return MafHeader.from_reader(_bare_reader(route_header_lines(name, [], typed), how, tmp), contigs=contigs)
+        if route == "from_reader-file-both+contigs":
+            other = sorted(contigs) if sorted(contigs) != contigs else list(reversed(contigs))
+            return MafHeader.from_reader(_bare_reader(route_header_lines(name, other, typed), how, tmp), contigs=contigs)
+    raise KeyError(route)
+
+
+def order_via(route, name, contigs, tmp):
+    """The sort order object the library builds when (name, contigs) is supplied through `route`."""
+    contigs = list(contigs or [])
+    if route in HEADER_ROUTES:
+        return header_via(route, name, contigs, tmp).sort_order()
+    cls = _order_cls(name)
+    if route == "ctor-contigs":
+        return cls(contigs=contigs or None)
+    if route == "ctor-positional":
+        return cls(None, contigs or None)
+    if route == "ctor-fasta":
+        return cls(fasta_index=fai_path(tmp, contigs))
+    if route == "ctor-fasta-positional":
+        return cls(fai_path(tmp, contigs))
+    if route == "find-contigs":
+        from maflib.sort_order import SortOrder
+        return SortOrder.find(sort_order_name=name)(contigs=contigs or None)
+    from maflib.header import MafHeaderSortOrderRecord
+    if route == "record-name-contigs":
+        return MafHeaderSortOrderRecord(value=name, contigs=contigs or None).value
+    if route == "record-obj-fasta":
+        return MafHeaderSortOrderRecord(value=cls(), fasta_index=fai_path(tmp, contigs)).value
+    if route == "record-bound":
+        return MafHeaderSortOrderRecord(value=cls(contigs=contigs or None)).value
+    raise KeyError(route)
